@@ -110,6 +110,30 @@ theorem splitIdx_flatten {n : Nat} {pts : List Nat} (h : PtsOk n pts) :
   rw [splitIdx, splitFrom_flatten n pts 0 (Nat.zero_le _) h.1 (fun p hp => ⟨Nat.zero_le _, h.2 p hp⟩)]
   simp [List.range_eq_range']
 
+theorem mem_chunk {a b n i : Nat} : i ∈ chunk a b n ↔ a ≤ i ∧ i < min b n := by
+  simp only [chunk, List.mem_range'_1]
+  omega
+
+/-- **discrete intermediate value**: whatever the split points are (unsorted, repeated, beyond
+    `n`), every index from the current position up to `n` lands in some chunk -/
+theorem splitFrom_cover (n : Nat) : ∀ (pts : List Nat) (a i : Nat), a ≤ i → i < n →
+    i ∈ (splitFrom n a pts).flatten := by
+  intro pts
+  induction pts with
+  | nil =>
+    intro a i h1 h2
+    simp only [splitFrom, List.flatten_cons, List.flatten_nil, List.append_nil, mem_chunk]
+    omega
+  | cons p ps ih =>
+    intro a i h1 h2
+    simp only [splitFrom, List.flatten_cons, List.mem_append]
+    by_cases h : i < p
+    · left; exact mem_chunk.mpr ⟨h1, by omega⟩
+    · right; exact ih p i (by omega) h2
+
+theorem splitIdx_cover (n : Nat) (pts : List Nat) (i : Nat) (h : i < n) :
+    i ∈ (splitIdx n pts).flatten := splitFrom_cover n pts 0 i (Nat.zero_le _) h
+
 theorem floorPts_ok (n : Nat) : PtsOk n (floorPts n) := by
   constructor
   · rw [floorPts, List.pairwise_map]
